@@ -361,7 +361,7 @@ UNITS = {
     # property C12: the start-up code with the process environment threaded through as ghost state (rwsx rule R-WORLD)
     "settings": {
         "preludes": ["shims/core.rs", "shims/bytes.rs", "shims/config.rs", "shims/world.rs"],
-        "specs": ["contracts/spec/config.rs", "contracts/spec/settings_tbl.rs", "contracts/spec/settings.rs"],
+        "specs": ["contracts/spec/config.rs", "contracts/spec/settings_tbl.rs", "contracts/spec/settings.rs", "contracts/spec/settings_toml.rs"],
         "world": ["rws_env_var", "rws_env_set_var", "set_default_values", "bootstrap", "read_system_environment_variables",
                   "override_environment_variables_from_config", "override_environment_variables_from_command_line_args", "read_config_file",
                   "CommandLineArgument::_parse", "CommandLineArgument::set_environment_variable", "get_ip_port_thread_count", "get_request_allocation_size",
